@@ -175,7 +175,12 @@ func (r *Run) eval(env *SpecEnv, e Expr) SV {
 	case ENil:
 		return SV{t: Term{"nil", "?"}, T: types.Typ[types.UntypedNil]}
 	case EIdent:
-		return r.evalIdent(env, x.Name)
+		sv := r.evalIdent(env, x.Name)
+		if sv.pkg != nil {
+			// a package name where a value is expected: the contract means a variable of that name that no longer exists
+			panic(specErr{msg: "unknown identifier " + x.Name + " (only a package of that name is in scope)", ident: x.Name})
+		}
+		return sv
 	case EOld:
 		if env.old == nil {
 			specFail("old() not available here")
@@ -364,8 +369,16 @@ func (r *Run) derefSV(env *SpecEnv, v SV) SV {
 	return SV{t: sel(r.heapGet(env.cur, r.eng.heapKeyObj(p.Elem())), v.t), T: p.Elem()}
 }
 
+// evalBase evaluates the left side of a selector: a package name is allowed there.
+func (r *Run) evalBase(env *SpecEnv, e Expr) SV {
+	if id, ok := e.(EIdent); ok {
+		return r.evalIdent(env, id.Name)
+	}
+	return r.eval(env, e)
+}
+
 func (r *Run) evalSel(env *SpecEnv, x ESel) SV {
-	base := r.eval(env, x.X)
+	base := r.evalBase(env, x.X)
 	if base.pkg != nil {
 		if g, ok := r.eng.ghosts[base.pkg.Path()+"::"+x.Sel]; ok {
 			return r.ghostSV(env, g)
@@ -604,7 +617,7 @@ func (r *Run) evalCall(env *SpecEnv, x ECall) SV {
 	u := r.eng.u
 	// method-style calls on values: t.IsZero(), ts.Before(u) ...
 	if sel, ok := x.Fun.(ESel); ok {
-		base := r.eval(env, sel.X)
+		base := r.evalBase(env, sel.X)
 		if base.pkg != nil {
 			// pkg.Func(args) or pkg.Type(x)
 			o := base.pkg.Scope().Lookup(sel.Sel)
